@@ -10,6 +10,7 @@ From RC Require Import Base.Show Base.Res Model.Output.
 Import ListNotations.
 Import OUT.
 Open Scope string_scope.
+From Coq Require Import Ascii.
 
 Notation trav := (traversal Z).
 Notation br := (branch Z).
@@ -50,6 +51,16 @@ Definition show_packed {A} (f : A -> string) (p : packed A) : string :=
 Definition show_opt {A} (f : A -> string) (o : option A) : string :=
   match o with None => "-" | Some a => f a end.
 
+Definition quote (s : string) : string := "'" ++ s ++ "'".
+(* the identifier file the harness writes: rows joined by the line terminator, optionally terminated *)
+Definition eol (crlf : bool) : string := if crlf then String cr (String nl EmptyString) else String nl EmptyString.
+Fixpoint render_table (rows : list string) (crlf trailing : bool) : string :=
+  match rows with
+  | [] => ""
+  | [r] => if trailing then r ++ eol crlf else r
+  | r :: t => r ++ eol crlf ++ render_table t crlf trailing
+  end.
+
 Definition show_path (p : route_path Z Z) : string :=
   match p with
   | PIds l => "ids" ++ show_list show_nat l
@@ -74,7 +85,7 @@ Definition show_fields (route tree ou du edges tsize : string) : string :=
 Definition show_response (r : response Z Z) : string :=
   show_fields (show_opt (show_packed show_route_out) (r_route r))
               (show_opt (show_packed show_tree_out) (r_tree r))
-              (show_opt (fun s => s) (r_origin_uuid r)) (show_opt (fun s => s) (r_destination_uuid r))
+              (show_opt quote (r_origin_uuid r)) (show_opt quote (r_destination_uuid r))
               (show_opt show_nat (r_route_edges r)) (show_opt show_nat (r_tree_size_count r)).
 Definition show_result (r : res (response Z Z)) : string :=
   match r with
@@ -85,30 +96,31 @@ Definition show_result (r : res (response Z Z)) : string :=
   end.
 
 (* ---------- the model line ---------- *)
-Definition build (g : res (geoms Z)) (uuids : list string) (c : pcfg) : res (plugin Z) :=
+Definition build (g : res (geoms Z)) (uuids : res (list string)) (c : pcfg) : res (plugin Z) :=
   match c with
   | CTraversal rf tf => do gg <- g; Ok (PlTraversal gg rf tf)
-  | CUuid => Ok (PlUuid uuids)
+  | CUuid => do uu <- uuids; Ok (PlUuid uu)
   | CSummary => Ok PlSummary
   end.
 
 Definition errpass_chain : list pcfg := [CTraversal (Some Wkt) (Some Wkt); CUuid; CSummary].
 
-Definition model_chain rows uuids req (sr : search_result Z) (chain : list pcfg) : string :=
-  match collect (build (traversal_from_file rows) uuids) chain with
+Definition model_chain rows (utext : string) req (sr : search_result Z) (chain : list pcfg) : string :=
+  match collect (build (traversal_from_file rows) (uuid_from_file utext)) chain with
   | Ok ps => show_result (apply_output_processing state_ok req sr ps)
   | _ => "BUILDERR"
   end.
 (* every plugin called directly with a failed search: the output is passed through untouched *)
-Definition model_errpass rows uuids req : string :=
-  match collect (build (traversal_from_file rows) uuids) errpass_chain with
+Definition model_errpass rows (utext : string) req : string :=
+  match collect (build (traversal_from_file rows) (uuid_from_file utext)) errpass_chain with
   | Ok ps => show_result (run_plugins state_ok ps (initial_output req) SErr)
   | _ => "BUILDERR"
   end.
 
-Definition line_m (id : Z) (rows : list (option (list (Z * Z)))) (uuids : list string) (req : request)
-           (sr : search_result Z) (chains : list (list pcfg)) : string :=
-  line "M" id (join " | " (map (model_chain rows uuids req sr) chains ++ [model_errpass rows uuids req])).
+Definition line_m (id : Z) (rows : list (option (list (Z * Z)))) (uuids : list string) (crlf trailing : bool)
+           (req : request) (sr : search_result Z) (chains : list (list pcfg)) : string :=
+  let utext := render_table uuids crlf trailing in
+  line "M" id (join " | " (map (model_chain rows utext req sr) chains ++ [model_errpass rows utext req])).
 
 (* ---------- the specification line ---------- *)
 Section Spec.
@@ -195,8 +207,8 @@ Section Spec.
                  show_fields
                    (match rf with Some f => s_pack (map (s_route_out f) routes) | None => "-" end)
                    (match tf with Some f => s_pack (map (s_tree_text f) trees) | None => "-" end)
-                   (match s_od with Some (o, _) => if uu then nth o uuids "-" else "-" | None => "-" end)
-                   (match s_od with Some (_, d) => if uu then nth d uuids "-" else "-" | None => "-" end)
+                   (match s_od with Some (o, _) => if uu then quote (nth o uuids "") else "-" | None => "-" end)
+                   (match s_od with Some (_, d) => if uu then quote (nth d uuids "") else "-" | None => "-" end)
                    (if su then show_nat (List.length (List.concat routes)) else "-")
                    (if su then show_nat (List.length (List.concat trees)) else "-")
              end
@@ -205,6 +217,8 @@ Section Spec.
     if s_rows_ok then show_fields "-" "-" "-" "-" "-" "-" else "BUILDERR".
 End Spec.
 
-Definition line_s (id : Z) (rows : list (option (list (Z * Z)))) (uuids : list string) (req : request)
-           (sr : search_result Z) (chains : list (list pcfg)) : string :=
+(* the specification reads the identifier table as "row i of the file belongs to vertex i", blank and
+   whitespace-only rows included; the line terminator style is irrelevant to it *)
+Definition line_s (id : Z) (rows : list (option (list (Z * Z)))) (uuids : list string) (crlf trailing : bool)
+           (req : request) (sr : search_result Z) (chains : list (list pcfg)) : string :=
   line "S" id (join " | " (map (spec_chain rows uuids req sr) chains ++ [spec_errpass rows])).
